@@ -48,7 +48,7 @@ type PFOp struct {
 	Muts     []Mut  `json:"muts,omitempty"`
 }
 
-var mutKinds = []string{"flipbit", "drop", "dup", "swap", "tohash", "nil", "truncate", "extend", "root", "version", "otherkey", "othertree", "replay", "empty", "cutentry", "growentry", "leafvalue", "dropleaf", "fullenc", "fullenc", "fullenc"}
+var mutKinds = []string{"flipbit", "drop", "dup", "swap", "tohash", "nil", "truncate", "extend", "root", "version", "otherkey", "othertree", "replay", "empty", "cutentry", "growentry", "leafvalue", "dropleaf", "fullenc", "fullenc", "fullenc", "inlineleaf", "inlineleaf"}
 
 func genMuts(r *core.Rand, maxCalls int) []Mut {
 	n := r.Pick([]int{0, 5, 2, 1})
@@ -373,6 +373,45 @@ func (b *byzSyncer) mutate(m Mut, honest *syncer.ProofResponse, alt func(kind st
 			}
 			es[j] = append([]byte{0x01}, lenc...)
 		}
+	case "inlineleaf":
+		// An internal-node entry is re-encoded in the form that carries the node's own leaf INLINE,
+		// with a fabricated leaf in that slot. In version-0 proofs the inline leaf takes part in
+		// the node's hash (so the fabrication cannot verify); in version-1 proofs the node's leaf
+		// is a separate entry and whatever stands inline must not be believed.
+		info := alignProof(&r.Proof)
+		var cands []int
+		for i := 0; i < n; i++ {
+			if ei, ok := info[i]; ok && ei.internal != nil {
+				cands = append(cands, i)
+			}
+		}
+		if len(cands) == 0 {
+			break
+		}
+		i := cands[m.A%len(cands)]
+		nd, err := node.UnmarshalBinary(es[i][1:])
+		in, ok := nd.(*node.InternalNode)
+		if err != nil || !ok {
+			break
+		}
+		// The fabricated pair: the key of a leaf of the proof with another value, or a new key.
+		forged := &node.LeafNode{Key: node.Key(fmt.Sprintf("forged-inline-%d", m.B%7)), Value: []byte{'f', byte(m.B)}}
+		if m.B%3 != 0 {
+			for j := 0; j < n; j++ {
+				if ej, ok := info[(j+m.A)%n]; ok && ej.leaf != nil {
+					forged.Key = append(node.Key{}, ej.leaf.Key...)
+					forged.Value = append(append([]byte{}, ej.leaf.Value...), 'x')
+					break
+				}
+			}
+		}
+		forged.UpdateHash()
+		in.LeafNode = &node.Pointer{Clean: true, Hash: forged.Hash, Node: forged}
+		enc, err := in.CompactMarshalBinaryV0()
+		if err != nil || len(enc) == 0 {
+			break
+		}
+		es[i] = append([]byte{0x01}, enc...)
 	case "dropleaf":
 		// Replace a leaf entry by nil (claim absence).
 		for off := 0; off < n; off++ {
